@@ -16,11 +16,10 @@ Open Scope Z_scope.
 
 (* ---------------------------------------------------------------- per-run obligations *)
 
-(* the constants of the regenerated Gen/MsConst.v are the ones the model and the proofs use,
-   and the chunk size is a legal block size *)
-Theorem C15_constants_match :
-  [ms_chunk_size; ms_default_num_scales; ms_default_scale_factor; ms_invalid_bits]
-  = [CHUNK; PYRAMID_NUM_SCALES; PYRAMID_SCALE_FACTOR; IB] /\ 1 <= ms_chunk_size.
+(* the invalidating bits of the regenerated Gen/MsConst.v are the ones the proofs use, and the
+   chunk size found in disparity_range is a legal block size (its value is otherwise
+   irrelevant: C15_chunk_of_source); the class defaults are used as they are *)
+Theorem C15_constants_match : ms_invalid_bits = IB /\ 1 <= ms_chunk_size.
 Proof. split; [reflexivity | vm_compute; discriminate]. Qed.
 
 (* the regenerated run table is the documented automaton (shared with C01) *)
@@ -37,13 +36,14 @@ Proof. exact invalid_spec. Qed.
    parameters take the class defaults; no multiscale step: one scale *)
 Theorem C15_read_params_first : forall pre s post,
   forallb (fun s => negb (sc_is_msc s)) pre = true -> sc_is_msc s = true ->
-  read_multiscale_params (pre ++ s :: post)
+  read_multiscale_params ms_default_num_scales ms_default_scale_factor (pre ++ s :: post)
   = (dflt (sc_num_scales s) ms_default_num_scales, dflt (sc_scale_factor s) ms_default_scale_factor).
-Proof. exact read_params_first. Qed.
+Proof. exact (read_params_first ms_default_num_scales ms_default_scale_factor). Qed.
 
 Theorem C15_read_params_none : forall steps,
-  forallb (fun s => negb (sc_is_msc s)) steps = true -> read_multiscale_params steps = (1, 1).
-Proof. exact read_params_none. Qed.
+  forallb (fun s => negb (sc_is_msc s)) steps = true ->
+  read_multiscale_params ms_default_num_scales ms_default_scale_factor steps = (1, 1).
+Proof. exact (read_params_none ms_default_num_scales ms_default_scale_factor). Qed.
 
 (* ---------------------------------------------------------------- which step runs at which scale *)
 
@@ -146,6 +146,16 @@ Theorem C15_block_independent : forall ws marge D V umin umax B B' r c,
 Proof.
   intros ws marge D V umin umax B B' r c H1 H3 H4.
   exact (range_at_block_independent ws marge D V umin umax H1 H3 H4 B B' r c).
+Qed.
+
+(* in particular the chunk size written in the source gives the ranges of the model *)
+Theorem C15_chunk_of_source : forall ws marge D V umin umax r c,
+  ws = 2 * offset ws + 1 -> ws <= nr D -> ws <= nc D ->
+  range_at_B ms_invalid_bits ws marge D V umin umax ms_chunk_size r c = range_at ms_invalid_bits ws marge D V umin umax r c.
+Proof.
+  intros ws marge D V umin umax r c H1 H3 H4.
+  exact (range_at_block_independent ws marge D V umin umax H1 H3 H4 ms_chunk_size CHUNK r c
+           (proj2 C15_constants_match) (Zle_bool_imp_le 1 CHUNK eq_refl)).
 Qed.
 
 (* for EVERY user interval (no guard): the grids handed to the finer level are the property's
@@ -251,6 +261,7 @@ Print Assumptions C15_coarsest_interval.
 Print Assumptions C15_one_grid_per_level.
 Print Assumptions C15_zoom_parent.
 Print Assumptions C15_block_independent.
+Print Assumptions C15_chunk_of_source.
 Print Assumptions C15_finer_interval_as_computed.
 Print Assumptions C15_fallback_refuted.
 Print Assumptions C15_finer_interval.
